@@ -1,5 +1,81 @@
 package main
 
+// Property-specific replay drivers for stateful receivers: small Go tests (kept under
+// /verif/replay/drivers, injected with `go test -overlay`, nothing written into /repo)
+// that reach the abstract pre-state of a failed obligation through the public API and
+// check the postcondition concretely on the real code.
+
+import (
+	"bytes"
+	"context"
+	"encoding/json"
+	"os"
+	"os/exec"
+	"path/filepath"
+	"regexp"
+	"strings"
+	"time"
+)
+
+type driverEntry struct {
+	ObligationContains string `json:"obligation_contains"`
+	SpecContains       string `json:"spec_contains"`
+	PackageDir         string `json:"package_dir"`
+	File               string `json:"file"`
+	Run                string `json:"run"`
+	What               string `json:"what"`
+}
+
+var driverOutRe = regexp.MustCompile(`GOVC-DRIVER-RESULT: (\{.*\})`)
+
 func runDriver(id string, o *Obligation, inputs map[string]string, repo, verif string, cfg *PropConfig) (bool, interface{}) {
+	data, err := os.ReadFile(filepath.Join(verif, "replay", "drivers", "index.json"))
+	if err != nil {
+		return false, "no replay drivers"
+	}
+	var entries []driverEntry
+	if json.Unmarshal(data, &entries) != nil {
+		return false, "bad driver index"
+	}
+	for _, e := range entries {
+		if !strings.Contains(o.Name, e.ObligationContains) || (e.SpecContains != "" && !strings.Contains(o.Text, e.SpecContains)) {
+			continue
+		}
+		src, err := os.ReadFile(filepath.Join(verif, "replay", "drivers", e.File))
+		if err != nil {
+			return false, err.Error()
+		}
+		dir, _ := os.MkdirTemp("", "govc-driver-")
+		defer os.RemoveAll(dir)
+		tf := filepath.Join(dir, e.File)
+		os.WriteFile(tf, src, 0o644)
+		pkgDir := filepath.Join(repo, e.PackageDir)
+		ov := map[string]interface{}{"Replace": map[string]string{filepath.Join(pkgDir, "zz_govc_"+e.File): tf}}
+		oj, _ := json.Marshal(ov)
+		of := filepath.Join(dir, "overlay.json")
+		os.WriteFile(of, oj, 0o644)
+		ctx, cancel := context.WithTimeout(context.Background(), 240*time.Second)
+		defer cancel()
+		cmd := exec.CommandContext(ctx, "go", "test", "-overlay", of, "-vet=off", "-count=1", "-v", "-timeout", "120s", "-run", "^"+e.Run+"$", ".")
+		cmd.Dir = pkgDir
+		cmd.Env = append(os.Environ(), "GOFLAGS=-mod=mod", "GOPROXY=off")
+		var buf bytes.Buffer
+		cmd.Stdout = &buf
+		cmd.Stderr = &buf
+		runErr := cmd.Run()
+		detail := map[string]interface{}{"driver": e.File, "what": e.What}
+		m := driverOutRe.FindStringSubmatch(buf.String())
+		if m == nil {
+			detail["output"] = trunc(buf.String(), 1500)
+			if runErr != nil {
+				detail["error"] = runErr.Error()
+			}
+			return false, detail
+		}
+		var res map[string]interface{}
+		json.Unmarshal([]byte(m[1]), &res)
+		detail["result"] = res
+		return res["violated"] == true, detail
+	}
 	return false, "no replay driver for this obligation"
 }
